@@ -275,6 +275,169 @@ def check_ssh1(st):
     st.sample({'ssh1_packet_len': len(pkt), 'bit_flips': len(pkt) * 8 - 32}, cap=14)
 
 
+# ---- operation sequences on ONE buffer object (state carried across flushes)
+OPS = [('byte', 7), ('bool', True), ('int', 0x01020304), ('string', b'ab'), ('list', ['x', 'yz']), ('mpint2', 0x80), ('mpint2', -129), ('mpint1', 0x1ff),
+       ('flush', None), ('reset', None)]
+
+
+def ref_encode(op, v):
+    if op == 'byte':
+        return bytes([v])
+    if op == 'bool':
+        return b'\x01' if v else b'\x00'
+    if op == 'int':
+        return struct.pack('>I', v)
+    if op == 'string':
+        return wire.sstring(v)
+    if op == 'list':
+        return wire.sstring(','.join(v).encode())
+    if op == 'mpint2':
+        return wire.mpint(v)
+    if op == 'mpint1':
+        return wire.ssh1_mpint(v)
+    return b''
+
+
+def check_op_sequences(st, depth):
+    """Every sequence of write/flush/reset operations up to `depth` on one WriteBuf: each flush returns exactly the
+    independent encoding of what was written since the previous flush/reset (reference model: a byte string)."""
+    for seq in itertools.product(range(len(OPS)), repeat=depth):
+        w = WriteBuf()
+        model = b''
+        ok = True
+        for i in seq:
+            op, v = OPS[i]
+            if op == 'flush':
+                got = w.write_flush()
+                if got != model:
+                    st.violation('buffer-sequence:flush-returns-wrong-bytes', {'ops': [OPS[j][0] for j in seq], 'got': got.hex(), 'expected': model.hex()})
+                    ok = False
+                    break
+                model = b''
+            elif op == 'reset':
+                w.reset()
+                model = b''
+            else:
+                getattr(w, 'write_' + op)(v)
+                model += ref_encode(op, v)
+        if ok:
+            got = w.write_flush()
+            if got != model:
+                st.violation('buffer-sequence:flush-returns-wrong-bytes', {'ops': [OPS[j][0] for j in seq] + ['flush'], 'got': got.hex(), 'expected': model.hex()})
+        st.evaluations += 1
+        st.transitions += depth
+        st.states.add(hash(('seq', seq)))
+        st.nontrivial.add(hash(('seq', seq)))
+    st.outcomes[('buffer-sequences', depth)] += 1
+    # read side: a ReadBuf consumed value by value returns what an independent decoder sees, for every order of 3 values
+    vals = [('int', 0xdeadbeef), ('string', b'hello'), ('mpint2', -1), ('mpint2', 1 << 70), ('byte', 200), ('list', ['a', 'b,c'.replace(',', '')])]
+    for seq in itertools.permutations(range(len(vals)), 3):
+        data = b''.join(ref_encode(*vals[i]) for i in seq)
+        r = ReadBuf(data)
+        for i in seq:
+            op, v = vals[i]
+            got = getattr(r, 'read_' + op)()
+            st.evaluations += 1
+            if got != v:
+                st.violation('buffer-sequence:read-returns-wrong-value', {'ops': [vals[j][0] for j in seq], 'at': op, 'got': repr(got)})
+                break
+        if r.unread_len != 0:
+            st.violation('buffer-sequence:unread-bytes-left', {'ops': [vals[j][0] for j in seq]})
+    st.sample({'buffer_operation_alphabet': [o[0] for o in OPS], 'depth': depth}, cap=14)
+
+
+def check_packet_streams(st, n):
+    """Several packets through ONE socket object: the stream decodes (independently) into exactly those payloads, and the
+    tool's own reader reads the same stream back packet by packet."""
+    lens = [1, 5, 8, 11, 12, 13, 16, 40]
+    for combo in itertools.product(lens, repeat=n):
+        payloads = [bytes(((i * 7 + k * 31 + ln) & 0xff) or 1 for i in range(ln)) for k, ln in enumerate(combo)]
+        srv = RawServer([])
+        w = H.world_for(srv)
+        vnet.set_world(w)
+        s = SSH_Socket(OutputBuffer(), H.HOST, 22)
+        s.connect()
+        for p in payloads:
+            s.write(p)
+            s.send_packet()
+        data = bytes(w.conns[0].sent)
+        s.close()
+        st.evaluations += 1
+        st.transitions += n
+        st.states.add(hash(('stream', combo)))
+        st.nontrivial.add(hash(('stream', combo)))
+        pk = wire.parse_packets(data)
+        got = [p[1] for p in pk]
+        if got != payloads or any(p[2].get('problems') for p in pk):
+            st.violation('framing:packet-stream-differs', {'payload_lengths': list(combo), 'decoded_lengths': [len(x) if isinstance(x, bytes) else -1 for x in got]})
+            continue
+        srv = RawServer([data])
+        w = H.world_for(srv)
+        vnet.set_world(w)
+        s = SSH_Socket(OutputBuffer(), H.HOST, 22, timeout=1)
+        s.connect()
+        for p in payloads:
+            t, back = s.read_packet(2)
+            if t != p[0] or back != p[1:]:
+                st.violation('framing:own-reader-does-not-read-back-stream', {'payload_lengths': list(combo)})
+                break
+        s.close()
+    st.sample({'packets_per_connection': n, 'payload_lengths': lens}, cap=14)
+
+
+def check_audit_traffic(st):
+    """Every packet the tool sends during complete audits (initial handshake, host-key probes, group-exchange probes) is well
+    framed and is exactly the message the protocol calls for at that point."""
+    import struct as _s
+    key = ['rsa-sha2-512', 'ssh-ed25519']
+    for kex, gex in ((['curve25519-sha256'], None), (['diffie-hellman-group14-sha256'], None), (['ecdh-sha2-nistp256'], None),
+                     (['diffie-hellman-group-exchange-sha256', 'diffie-hellman-group-exchange-sha1'], P.GexPolicy([2048, 4096], P.STRICT)),
+                     (['curve25519-sha256', 'diffie-hellman-group-exchange-sha256'], P.GexPolicy([3072], P.OPENSSH))):
+        srv = P.Server(kex=kex, key=key, enc=['aes256-ctr', 'aes128-ctr'], mac=['hmac-sha2-256'], host_keys=P.standard_host_keys(key), gex=gex,
+                       banner=b'SSH-2.0-OpenSSH_8.9p1')
+        res = H.audit(srv)
+        npk = 0
+        for r in srv.records:
+            types = []
+            for pk in r.get('packets_in', []):
+                npk += 1
+                types.append(pk['type'])
+                probs = [x for x in pk['problems'] if x != 'empty payload']
+                if probs:
+                    st.violation('audit-traffic:framing', {'kex': kex, 'conn': r['index'], 'problems': probs})
+                payload = pk['payload']
+                try:
+                    if pk['type'] == 20:
+                        d = wire.parse_kexinit(payload)
+                        if r['index'] > 0 and not set(wire.names_of(d['kex'])) <= set(kex):
+                            st.violation('audit-traffic:probe-kexinit-offers-foreign-kex', {'kex': kex, 'sent': wire.names_of(d['kex'])})
+                        if wire.names_of(d['enc_s2c']) != (['aes256-ctr', 'aes128-ctr'] if r['index'] > 0 else wire.names_of(d['enc_s2c'])):
+                            st.violation('audit-traffic:probe-kexinit-ciphers-differ', {'conn': r['index'], 'sent': wire.names_of(d['enc_s2c'])})
+                    elif pk['type'] == 34:
+                        if len(payload) != 13:
+                            raise wire.WireError('GEX_REQUEST length %d' % len(payload))
+                        mn, pref, mx = _s.unpack('>III', payload[1:])
+                        if not (mn <= pref <= mx):
+                            st.violation('audit-traffic:gex-request-not-ordered', {'request': [mn, pref, mx]})
+                    elif pk['type'] in (30, 32):
+                        rd = wire.Reader(payload[1:])
+                        body = rd.string()
+                        if not rd.done() or len(body) == 0:
+                            raise wire.WireError('KEX init body')
+                    else:
+                        st.violation('audit-traffic:unexpected-message-type', {'kex': kex, 'conn': r['index'], 'type': pk['type']})
+                except wire.WireError as e:
+                    st.violation('audit-traffic:malformed-message:type-%s' % pk['type'], {'kex': kex, 'conn': r['index'], 'what': str(e), 'payload_head': payload[:24].hex()})
+            if types and types[0] != 20:
+                st.violation('audit-traffic:first-packet-not-kexinit', {'kex': kex, 'conn': r['index'], 'types': types})
+            if r.get('client_banner') is not None and not r['client_banner'].startswith(b'SSH-2.0-'):
+                st.violation('audit-traffic:bad-client-banner', {'banner': repr(r['client_banner'])})
+        st.execution(res.world, outcome=('audit-traffic', npk), root=('audit-traffic', tuple(kex)), nontrivial=('audit-traffic', tuple(kex)))
+        if npk < 3:
+            st.violation('audit-traffic:too-few-packets-observed', {'kex': kex, 'packets': npk})
+        st.sample({'audit_traffic_kex': kex, 'connections': len(srv.records), 'packets_checked': npk}, cap=16)
+
+
 def run(tier, seed):
     t0 = time.time()
     W = 1 << (13 if tier == 'quick' else 17)
@@ -286,6 +449,9 @@ def run(tier, seed):
     check_scalars(st)
     check_messages(st)
     check_ssh1(st)
+    check_op_sequences(st, 4 if tier == 'quick' else 5)
+    check_packet_streams(st, 2 if tier == 'quick' else 3)
+    check_audit_traffic(st)
     L = 1024 if tier == 'quick' else 4096
     par.pmap(work_framing, list(range(0, L + 1)), stats=st)
     # supplementary (not deciding): seeded random big integers
@@ -302,9 +468,13 @@ def run(tier, seed):
         rule='mpint (SSH-2 both signs, SSH-1 non-negative): every n in [-2^%d, 2^%d]; +-2^k+d for k=1..%d, d in [-3,3]; every 3-word pattern '
              'over %s with both signs and shifted variants; bytes 0..255, bools, 32-bit boundary ints, strings; name-lists of length 0..3 over 6 '
              'names; KEXINIT messages over 5^4 list choices x follows/reserved; SSH-1 public key messages; send_packet framing for payload lengths '
-             '0..%d decoded independently and read back by read_packet; SSH-1 CRC for lengths 0..512; SSH-1 reader vs every single-bit corruption; '
+             '0..%d decoded independently and read back by read_packet; every sequence of %d write/flush/reset operations on one buffer '
+             'object against a byte-string reference model; every %d-packet stream over 8 payload lengths through one socket object; every packet '
+             'sent during complete audits over 5 key-exchange paths decoded as the expected message; SSH-1 CRC for lengths 0..512; SSH-1 reader vs '
+             'every single-bit corruption; '
              'supplementary 300 seeded random integers (not counted)' % (13 if tier == 'quick' else 17, 13 if tier == 'quick' else 17, K,
-                                                                        [hex(x) for x in WORDS], L),
+                                                                        [hex(x) for x in WORDS], L, 4 if tier == 'quick' else 5,
+                                                                        2 if tier == 'quick' else 3),
         assumptions=['independent codec: mc/wire.py (int.to_bytes signed, zlib CRC)', 'SSH-1 mpints are unsigned by format'],
         exhaustive=True)
 
